@@ -88,6 +88,9 @@ def accessors_of(val):
             ("__or__", lambda: list((val | {}).values())),
             ("__ror__", lambda: list(({} | val).values())),
             ("keys", lambda: list(val)),
+            ("keys()", lambda: list(val.keys())),
+            ("items()-keys", lambda: [k for k, _ in val.items()]),
+            ("reversed", lambda: list(reversed(val))),
         ]
     elif isinstance(val, (set, frozenset, tuple)):
         acc += [("iter", lambda: list(val))]
